@@ -57,6 +57,8 @@ class Finding:
         self.shape = shape_of(construct)
         self.detail, self.line, self.path = detail, line, path
         self.ordinal = 1
+        self.sig = ""        # optional semantic signature (e.g. the dimensions combined): part of the known-findings key, so that a
+        #                      *different* defect at an already listed construct is reported as new
 
     @property
     def ident(self):
@@ -66,7 +68,7 @@ class Finding:
     @property
     def key(self):
         """identity used for known-findings matching: rule | function | rename-invariant shape # occurrence (source order)"""
-        return f"{self.rule}|{self.func}|{self.shape}#{self.ordinal}"
+        return f"{self.rule}|{self.func}|{self.shape}{'|' + self.sig if self.sig else ''}#{self.ordinal}"
 
     def as_dict(self):
         d = {"rule": self.rule, "file": self.file, "function": self.func, "construct": self.construct,
@@ -113,7 +115,7 @@ class Result:
         if f.ident not in {x.ident for x in self.findings}:
             self.findings.append(f)
             # occurrence numbers among findings of the same rule/function/shape, in source order
-            same = sorted((x for x in self.findings if (x.rule, x.func, x.shape) == (f.rule, f.func, f.shape)),
+            same = sorted((x for x in self.findings if (x.rule, x.func, x.shape, x.sig) == (f.rule, f.func, f.shape, f.sig)),
                           key=lambda x: (x.line or 0, x.construct))
             for i, x in enumerate(same, 1):
                 x.ordinal = i
